@@ -703,7 +703,10 @@ class EdgeQLSourceGenerator(codegen.SourceGenerator):
         if node.kind == qlast.ConstantKind.STRING:
             if not _NON_PRINTABLE_RE.search(node.value):
                 for d in ("'", '"', '$$'):
-                    if d not in node.value:
+                    if d not in node.value and not (
+                        # a trailing `$` would merge with the closing `$$`
+                        d == '$$' and node.value.endswith('$')
+                    ):
                         if '\\' in node.value and d != '$$':
                             self.write('r', d, node.value, d)
                         else:
